@@ -20,12 +20,14 @@ RULE = ("Hypothesis draws an ordered pair (A, B) from pytz.common_timezones u li
         "in {True, False, unset}, optionally a zone written in the string. Oracle: pytz used directly "
         "(A.localize(d, is_dst=None).astimezone(B)): wall clock and, when aware, utcoffset must match; True => aware, False => "
         "naive, unset => aware iff the string named a zone. TIMEZONE='local' is run in child interpreters started with TZ in "
-        "{UTC, America/New_York, Asia/Kolkata, Australia/Lord_Howe, Pacific/Apia}. Non-trivial = A and B have different offsets "
+        "{UTC, America/New_York, Asia/Kolkata, Australia/Lord_Howe, Pacific/Apia}. Two enumerated stages: every table "
+        "abbreviation written in the string and given as TO_TIMEZONE/TIMEZONE (identity), and every (IANA zone, abbreviation that "
+        "zone itself uses and the table also lists) pair in both directions. Non-trivial = A and B have different offsets "
         "at that instant; distinct on (A, B, parser kind, awareness, own zone?).")
 ASSUMPTIONS = ["pytz is the reference for zone arithmetic", "names resolvable by both pytz and the library's table (EST, CET, ...) are excluded from the pools",
                "relative kind uses a zero delta so no wall-clock arithmetic across DST is involved"]
 ESSENTIAL = ["kind:absolute", "kind:format", "kind:timestamp", "kind:relative", "aware:True", "aware:False", "aware:unset",
-             "own-zone", "dst-adjacent", "half-hour-zone", "pair:differ"]
+             "own-zone", "dst-adjacent", "half-hour-zone", "pair:differ", "own-abbreviation-pair"]
 
 KINDS = ["absolute", "format", "timestamp", "relative"]
 _pool = []
@@ -150,6 +152,8 @@ def check_case(case):
         cls.append("half-hour-zone")
     if case.get("env_tz"):
         cls.append("local:" + case["env_tz"])
+    if case.get("own_abbr"):
+        cls.append("own-abbreviation-pair")
     try:
         got, want_wall, want_off, src_off, s, settings = evaluate(case)
     except (pytz.AmbiguousTimeError, pytz.NonExistentTimeError):
@@ -286,8 +290,60 @@ def _identity_cases(ctx):
     return it
 
 
+_own_abbr = []
+
+
+def own_abbreviation_pairs():
+    """[(IANA zone Z, abbreviation N, local wall clock)]: N is what Z itself calls its time at that moment *and* a name of the
+    library's table (with one listed offset, unknown to pytz) — e.g. Asia/Shanghai + CST, Europe/London + BST.  The table's N
+    usually is another zone altogether, so the pair is an ordinary pair of the quantifier whose two names happen to coincide."""
+    if not _own_abbr:
+        dual = vtz.dual_names()
+        _, abbrs, conflicts = vtz.source_tables()
+        usable = {a for a in abbrs if a not in dual and a not in conflicts and a.isascii()}
+        for zname in pytz.common_timezones:
+            z = pytz.timezone(zname)
+            tt = getattr(z, "_utc_transition_times", None)
+            seen = set()
+            if not tt:
+                n = z.tzname(dt.datetime(2000, 1, 1))
+                if n in usable:
+                    _own_abbr.append((zname, n, [2000, 1, 1, 12, 0, 0, 0]))
+                continue
+            for i, t in enumerate(tt):
+                if not 1950 <= t.year <= 2036:
+                    continue
+                n = z._transition_info[i][2]
+                if n not in usable or n in seen:
+                    continue
+                nxt = tt[i + 1] if i + 1 < len(tt) else t + dt.timedelta(days=90)
+                mid = t + (nxt - t) / 2 if nxt - t < dt.timedelta(days=300) else t + dt.timedelta(days=40)
+                loc = pytz.utc.localize(mid.replace(microsecond=0)).astimezone(z)
+                if loc.tzname() != n or not 1950 <= loc.year <= 2037:
+                    continue
+                seen.add(n)
+                _own_abbr.append((zname, n, [loc.year, loc.month, loc.day, loc.hour, loc.minute, loc.second, 0]))
+    return _own_abbr
+
+
+def _own_abbr_cases(ctx):
+    def it(shard, nshards):
+        for i, (z, n, local) in enumerate(own_abbreviation_pairs()):
+            if i % nshards != shard:
+                continue
+            for j, kind in enumerate(KINDS):
+                if kind == "timestamp" and local[0] < 2002:
+                    continue
+                h = derive_seed(ctx.seed, z, n, kind)
+                for A, B in ((z, n), (n, z)):
+                    yield {"A": A, "B": B, "kind": kind, "aware": [None, True, False][(h + (A == z)) % 3], "own": None,
+                           "local": local, "dst_adjacent": False, "ms": False, "own_abbr": True}
+    return it
+
+
 def stages(ctx):
     out = [Stage("same_name_identity", "enum", cases=_identity_cases(ctx), exhaustive=True, check=check_identity),
+           Stage("own_abbreviation_pairs", "enum", cases=_own_abbr_cases(ctx), exhaustive=True),
            Stage("pairs", "hyp", strategy=cases(), examples=ctx.n(40000, 600000))]
     if not ctx.quick:
         out.append(Stage("pair_grid", "enum", cases=_pair_grid(ctx), exhaustive=True))
